@@ -1709,3 +1709,89 @@ func r036(c *Ctx, r *R) {
 		r.Und("compare", f.Pos(), "fewer than two comparisons against needed/wanted found (%d)", n)
 	}
 }
+
+func init() {
+	register(&Rule{ID: "R09.8", Props: []string{"C09", "C03"}, Floor: 4, Title: "informer siblings agree: a metric is marked valid only when the query behind it succeeded, and every metric that can be valid gets the configured TTL before it is returned", Run: r098})
+}
+
+func r098(c *Ctx, r *R) {
+	for _, inf := range [][2]string{{"informer/disk", "Informer.GetMetric"}, {"informer/numpin", "Informer.GetMetric"}} {
+		f := c.fn(r, inf[0], inf[1])
+		if f == nil {
+			continue
+		}
+		label := inf[0]
+		var rpcCall *ssa.Call
+		for _, ci := range callsIn(f) {
+			if nameMatches(callName(ci.Common()), "gorpc.Client).CallContext", "gorpc.Client).Call") {
+				rpcCall, _ = ci.(*ssa.Call)
+			}
+		}
+		if rpcCall == nil {
+			r.Und(label+":query", f.Pos(), "no RPC query found in GetMetric")
+			continue
+		}
+		errOfQuery := func(v ssa.Value) bool { cc, _ := originCall(v); return cc == rpcCall }
+		// (1) Valid
+		nValid := 0
+		instrs(f, func(i ssa.Instruction) {
+			st, ok := i.(*ssa.Store)
+			if !ok {
+				return
+			}
+			fa, ok := st.Addr.(*ssa.FieldAddr)
+			if !ok || fieldOfAddr(fa).Name() != "Valid" {
+				return
+			}
+			for _, lf := range valueLeaves(st.Val, st.Block()) {
+				k, isK := constOf(lf.Val)
+				switch {
+				case isK && k != nil && !boolVal(k):
+					// false: always fine
+				case isK && k != nil && boolVal(k):
+					nValid++
+					ok := lf.GuardedBy(func(g Guard) bool { return gNil(g, false, errOfQuery) })
+					r.Check(ok, label+":valid-only-on-success", st.Pos(), "Valid is true only where the query's error was tested to be nil", "the metric is marked valid on a path where the query behind it may have failed: a made-up value (0 pins, 0 bytes free) is used for allocation")
+				default:
+					// err == nil as a value
+					nValid++
+					bo, isB := lf.Val.(*ssa.BinOp)
+					ok := isB && bo.Op == token.EQL && (isNilConst(bo.Y) && errOfQuery(bo.X) || isNilConst(bo.X) && errOfQuery(bo.Y))
+					r.Check(ok, label+":valid-only-on-success", st.Pos(), "Valid is the outcome of the query (err == nil)", "the metric's Valid flag is not derived from the outcome of the query behind it")
+				}
+			}
+		})
+		if nValid == 0 {
+			r.Bad(label+":valid-only-on-success", f.Pos(), "GetMetric never produces a valid metric")
+		}
+		// (2) TTL before return, for every metric that is not constant-invalid
+		ttl := findCalls(f, false, "api.Metric).SetTTL")
+		okTTL := len(ttl) > 0
+		for _, ret := range returnsOf(f) {
+			if ret.Block() == f.Recover {
+				continue
+			}
+			// the early "no client" return is constant-invalid: it is the
+			// one not reachable from the query
+			if !blockReaches(rpcCall.Block(), ret.Block()) && rpcCall.Block() != ret.Block() {
+				continue
+			}
+			dom := false
+			for _, t := range ttl {
+				if t.Block() == ret.Block() || t.Block().Dominates(ret.Block()) {
+					dom = true
+				}
+			}
+			if !dom {
+				okTTL = false
+			}
+		}
+		r.Check(okTTL, label+":ttl", f.Pos(), "every metric built from the query gets its TTL (SetTTL dominates the return)", "GetMetric can return a metric without a TTL: it is expired on arrival, the peer never has a valid metric and is never a candidate (or is reported failed)")
+		// the TTL is the configured one
+		for _, t := range ttl {
+			ta := callArgs(t.Common())
+			fl, _ := fieldLoad(ta[len(ta)-1])
+			r.Check(fl != nil && fl.Name() == "MetricTTL", label+":ttl-configured", t.Pos(), "the TTL is the configured metric_ttl", "the metric's TTL is not the configured metric_ttl")
+		}
+	}
+}
